@@ -11,17 +11,109 @@ GEN_STEPS = {
 }
 CONSUME_FAIL = ("Result::<T, E>::expect", "Result::<T, E>::unwrap")
 IDENT = M.IDENTITY_CALLS + ("ops::Try::branch", "Result::<T, E>::expect", "Result::<T, E>::unwrap", "Option::<T>::ok_or",
-                            "Option::<T>::map", "Path::to_path_buf")
+                            "Option::<T>::map", "Path::to_path_buf", "Result::<T, E>::map_err", "Result::<T, E>::inspect_err", "Result::<T, E>::or_else")
 
 
 def sp(B, bb):
     return B.term(bb).get("sp", "?")
 
 
+def _err_arm_exits_nonzero(B, bb):
+    """`match step() { Ok(..) => .., Err(e) => { report(e); code } }` in a `main` that answers with an `ExitCode`: the discriminant read
+    in block bb is switched on, and on every path from the Err arm the value main returns is `ExitCode::from(<constant other than 0>)`
+    — never `ExitCode::SUCCESS` — or the process is ended with `process::exit(<constant other than 0>)`. -> the blocks of the Err
+    arm when that holds, else None."""
+    dl = None
+    for st in B.blocks[bb]["stmts"]:
+        if st["k"] == "assign" and st["rv"]["k"] == "discr" and not st["p"].get("proj"):
+            dl = st["p"]["l"]
+    if dl is None:
+        return None
+    sw = None
+    for x in sorted(B.reachable_from(bb)):
+        t = B.term(x)
+        if t.get("k") == "switch" and t["discr"].get("k") in ("copy", "move") and t["discr"]["p"]["l"] == dl:
+            sw = t
+            break
+    if sw is None:
+        return None
+    ok_arm = [b2 for v, b2 in sw["targets"] if v == 0]
+    err_arm = [b2 for v, b2 in sw["targets"] if v == 1]
+    if not err_arm:
+        err_arm = [sw["otherwise"]] if ok_arm and sw.get("otherwise") is not None else []
+    if not ok_arm:
+        ok_arm = [sw["otherwise"]] if err_arm and sw.get("otherwise") is not None else []
+    if not err_arm or not ok_arm:
+        return None
+    region = B.reachable_from(err_arm[0], avoid=ok_arm)
+    only_err = region - B.reachable_from(ok_arm[0], avoid=err_arm)     # (not the code behind the join)
+    if "ExitCode" not in B.local_ty(0):
+        # a main without an answer: the arm has to end the process itself
+        ends = [x for x in only_err if B.term(x).get("k") == "call" and (M.Body.callee_decl(B.term(x)) or "").endswith("process::exit")]
+        good = bool(ends) and all(_nonzero_const(B, B.term(x)["args"][0]) for x in ends) and all(
+            B.term(x).get("k") != "return" for x in only_err) and all(B.term(x).get("target") is None for x in ends)
+        return only_err if good else None
+    codes = []
+    for x in only_err:
+        for st in B.blocks[x]["stmts"]:
+            if st["k"] == "assign" and st["p"]["l"] == 0 and not st["p"].get("proj"):
+                codes.append(st["rv"])
+        t = B.term(x)
+        if t.get("k") == "call" and t["dest"]["l"] == 0 and not t["dest"].get("proj"):
+            codes.append(("call", t))
+    if not codes:
+        return None
+    for c in codes:
+        if isinstance(c, tuple):
+            os_ = [M.Origin("call", term=c[1], bb=None)]
+        elif c["k"] == "use":
+            os_ = M.trace(B, c["op"], ())
+        else:
+            return None
+        for o in os_:
+            if not (o.kind == "call" and (M.Body.callee_decl(o.term) or "").endswith(("convert::From::from", "ExitCode::from")) and o.term.get("args")
+                    and "ExitCode" in B.local_ty(o.term["dest"]["l"]) and _nonzero_const(B, o.term["args"][0])):
+                return None
+    return only_err
+
+
+def _nonzero_const(B, op):
+    os_ = M.trace(B, op)
+    return bool(os_) and all(o.kind == "const" and isinstance(o.const.get("bits"), int) and o.const["bits"] != 0 for o in os_)
+
+
 def fails_stop(B, bb, t):
-    """The Result of call t is consumed by expect/unwrap (panic => exit status 101) or `?`."""
+    """The Result of call t is consumed by expect/unwrap (panic => exit status 101) or `?` — or it is matched on and the Err arm
+    answers with an exit status other than 0 (what the arm does with the error value besides — printing it — is its own business)."""
     kinds = M.result_flow(B, bb, t)
-    ok = bool(kinds) and all(k in ("unwrapped", "propagated", "returned") for k, _ in kinds)
+
+    def bare(k):
+        while k.startswith("mapped:"):
+            k = k[len("mapped:"):]
+        return k
+    arms = []
+    matched = [(k, d) for k, d in kinds if bare(k) == "matched" and isinstance(d, int)]
+    inner = []
+    for k, d in matched:
+        r = _err_arm_exits_nonzero(B, d)
+        if r is not None:
+            arms.append(r)
+    for k, d in matched:
+        if _err_arm_exits_nonzero(B, d) is None:
+            if any(d in a for a in arms):
+                inner.append(d)      # a match on the error value inside a failing arm (which kind of failure it is)
+            else:
+                return False, kinds
+    rest = []
+    for k, d in kinds:
+        if bare(k) == "matched" and isinstance(d, int):
+            continue
+        if arms and bare(k) in ("passed", "other", "wrapped", "stored") and isinstance(d, tuple) and d and any(d[0] in a for a in arms):
+            continue        # what the failing arm does with the error value
+        if arms and bare(k) in ("wrapped",) and any(d in a for a in arms if isinstance(d, int)):
+            continue
+        rest.append((k, d))
+    ok = bool(kinds) and all(bare(k) in ("unwrapped", "propagated", "returned") for k, _ in rest) and (bool(rest) or bool(arms))
     return ok, kinds
 
 
